@@ -41,9 +41,21 @@ def run_one(sid, all_checks=False, patch=None, prop=None, tier='quick'):
         shutil.rmtree(tmp, ignore_errors=True)
 
 
+def _one(a):
+    return run_one(a[0], a[1])
+
+
 if __name__ == '__main__':
     args = [a for a in sys.argv[1:] if not a.startswith('--')]
     allc = '--all-checks' in sys.argv
     ids = args or sorted(os.listdir(os.path.join(VERIF, 'seeded')))
-    for sid in ids:
-        print(json.dumps(run_one(sid, allc), indent=1))
+    jobs = [a for a in sys.argv[1:] if a.startswith('--jobs=')]
+    nj = int(jobs[0].split('=')[1]) if jobs else 1
+    if nj > 1:
+        import multiprocessing as mp
+        with mp.get_context('fork').Pool(nj) as pool:
+            for r in pool.imap(_one, [(sid, allc) for sid in ids]):
+                print(json.dumps(r, indent=1), flush=True)
+    else:
+        for sid in ids:
+            print(json.dumps(run_one(sid, allc), indent=1), flush=True)
